@@ -67,7 +67,9 @@ def deltas_cases(draw):
     ndim = draw(st.sampled_from([1, 2, 2, 3, 3, 4]))
     shape = [draw(st.sampled_from(SIZES)) for _ in range(ndim)]
     a = draw(st.integers(0, ndim - 1))
-    T = draw(st.sampled_from([1, 2, 2, 3, 3, 4, 4, 5, 5, 6, 7]))
+    T = draw(st.sampled_from([1, 2, 2, 3, 3, 4, 4, 5, 5, 6, 7] * 3 + [300, 1025]))  # a few long utterances
+    if T > 7:
+        shape = [min(v, 2) for v in shape]
     shape[a] = T
     axis = a - ndim if draw(st.booleans()) else a
     concatenate = draw(st.booleans())
@@ -115,6 +117,10 @@ def check_deltas(case):
         "Deltas(%d, target_axis=%d, concatenate=%s, context_window=%d, pad_mode=%r)" % (nd, target, cc, W, mode),
         Deltas, nd, target_axis=target, concatenate=cc, context_window=W, pad_mode=mode,
     )
+    if case.get("prior"):
+        # the same post-processor object may already have been applied to another tensor
+        pshape = [max(2, v) for v in case["prior"]]
+        call("Deltas.apply (earlier call)", d.apply, make_tensor(pshape, "f64", 7, 1.0, "C"), axis=-1)
     out = call("Deltas.apply(axis=%d)" % axis, d.apply, x, axis=axis, in_place=in_place)
     ref, _ = post_ref.deltas_ref(x0, nd, W, mode, axis, target, cc)
 
@@ -189,7 +195,7 @@ def stack_cases(draw):
     if fpos >= tpos:
         fpos += 1
     n = draw(st.sampled_from([1, 2, 2, 2, 3, 3, 3, 4, 4, 5]))
-    T = draw(st.sampled_from([0, 1, 2, 3, 4, 5, 6, 7, 8, 9, 10, 11, 12, 13, n - 1, n, n + 1, 2 * n, 2 * n + 1, 3 * n - 1]))
+    T = draw(st.sampled_from([0, 1, 2, 3, 4, 5, 6, 7, 8, 9, 10, 11, 12, 13, n - 1, n, n + 1, 2 * n, 2 * n + 1, 3 * n - 1] * 2 + [301, 1024, 1027]))
     shape[tpos] = T
     shape[fpos] = draw(st.sampled_from([1, 1, 2, 3, 4, 5, 0]))
     return {
@@ -202,6 +208,7 @@ def stack_cases(draw):
         "seed": draw(st.integers(0, 2 ** 32 - 1)),
         "layout": draw(st.sampled_from(LAYOUTS)),
         "in_place": draw(st.sampled_from([False, False, False, True])),
+        "prior": draw(st.one_of(st.none(), st.none(), st.lists(st.integers(2, 5), min_size=2, max_size=3))),
     }
 
 
@@ -226,6 +233,10 @@ def check_stack(case):
         return call("Stack(%d, time_axis=%d, pad_mode=%r)" % (n, ta, mode), Stack, n, time_axis=ta, pad_mode=mode)
 
     s = build()
+    if case.get("prior"):
+        pshape = [max(2, v) for v in case["prior"]][:3]
+        if len(pshape) >= 2 and ta % len(pshape) != (len(pshape) - 1) % len(pshape) and -len(pshape) <= ta < len(pshape):
+            call("Stack.apply (earlier call)", s.apply, make_tensor(pshape, "f64", 7, 1.0, "C"), axis=-1)
     out = call("Stack.apply(axis=%d)" % fa, s.apply, x, axis=fa, in_place=in_place)
     ref = post_ref.stack_ref(x0, n, ta, fa, mode)
     require(isinstance(out, np.ndarray), "Stack.apply returned {}", type(out).__name__)
